@@ -191,6 +191,8 @@ func timeoutFor(kind, tier string, n int) time.Duration {
 		per = 8 * time.Second
 	case "auth", "meta":
 		per = 40 * time.Second
+	case "cacheinit", "idlefree":
+		per = 60 * time.Second // seconds of work; the margin is for a loaded machine (shard creation and fsync per round)
 	}
 	if tier == "thorough" {
 		per *= 4
